@@ -218,6 +218,9 @@ func (c *ctx) decorate(tv *TV) {
 			}
 		}
 	})
+	if r.Intn(3) == 0 {
+		tv.noncanonBools(r)
+	}
 	if r.Intn(4) != 0 {
 		tv.shuffleFields(r)
 	}
